@@ -46,7 +46,7 @@ def _replay(beh):
     d = beh["desc"]
     dtype = bind.DT[d["dt"]]
     fails = []
-    A = bind.tensor(beh["dense"], torch.float64)
+    A, _X, logdet, iq = e2.oracles(beh)
     n = A.shape[-1]
     batch = list(A.shape[:-2])
     stochastic = d["logdet_path"] == "stochastic-lanczos-quadrature"
@@ -54,20 +54,21 @@ def _replay(beh):
     try:
         op = bind.build(beh["term"], dtype)
         B = {k: bind.tensor(v, dtype) for k, v in beh["rhs"].items()}
-        dets = torch.tensor([float(x) for x in beh["dets"]], dtype=torch.float64).reshape(batch)
-        logdet = dets.log()
-        iq = {}
-        for k in ("mat", "vec"):
-            cols = torch.tensor([[c / q["den"] for c in q["cols"]] for q in beh["inv_quad"][k]], dtype=torch.float64)
-            iq[k] = cols.reshape(batch + [cols.shape[-1]])
         tol_d = e2.tolerance(dtype, A, "cholesky") * 10
         if d["cfg"]["max_chol"] == 0:
             # above max_cholesky_size the structured classes use eigen / root decompositions that carry the documented 1e-6 jitter
             tol_d = max(tol_d, 2e-2 if dtype == torch.float32 else 1e-4)
         tol_s = e2.tolerance(dtype, A, "stochastic-lanczos-quadrature")
-        tol_l = tol_s if stochastic else tol_d
+        # with unit-vector probes and a Lanczos budget >= n the stochastic estimate is the full Gauss quadrature, i.e. exact in exact
+        # arithmetic; measured error on the unchanged tree <= 7e-10 (f64) / 1e-6 (f32) over all classes, so the bound is set 3 orders
+        # of magnitude above that and far below the effect of losing a single quadrature node
+        # (working precision x condition number, as for the direct methods, with that floor)
+        tol_l = max(1e-6 if dtype == torch.float64 else 1e-4, e2.tolerance(dtype, A, "cholesky")) if stochastic else tol_d
         # the solve inside inv_quad follows the *solve* selection (CG above max_cholesky_size)
         tol_q = e2.tolerance(dtype, A, d["solve_path"]) * 10 if not stochastic else tol_s
+        if beh.get("big") and (stochastic or d["solve_path"].startswith("cg")):
+            # more unknowns than the 10 mandatory CG iterations: the quadratic form inherits the configured CG tolerance
+            tol_q = max(tol_q, 30 * (e2.CG_TOL_SMALL if d["cfg"]["cg_tol_small"] else 1.0))
 
         def chk(label, got, ref, tol, shape=None):
             if got is None:
@@ -85,9 +86,11 @@ def _replay(beh):
 
         # exact only when the probes this harness injects are the ones consumed: no preconditioner, and no class that hands the
         # log-determinant to sub-blocks of another size (block / repeat structures draw their own probes per block)
-        exact_probes = stochastic and not d["cfg"]["precond"] and d["cls"] not in ("BlockDiag", "BlockInter", "BatchRepeat", "Kron", "KronDiag", "KronAddedDiag", "SumKron")
-        extra = [S.num_trace_samples(n), S.max_lanczos_quadrature_iterations(n + 2)] if stochastic else []
-        with e2.configuration(d["cfg"], extra) as lines, UnitProbes(n) as up:
+        # (AddedDiagRootConst: the rank-2 pivoted-Cholesky preconditioner reproduces the operator exactly, so the preconditioned
+        #  quadrature term vanishes for ANY probes and the result must be log|P| = log|A| exactly)
+        exact_probes = stochastic and (d["cls"] == "AddedDiagRootConst" or not d["cfg"]["precond"]) and d["cls"] not in ("BlockDiag", "BlockInter", "BatchRepeat", "Kron", "KronDiag", "KronAddedDiag", "SumKron")
+        extra = [S.num_trace_samples(n), S.max_lanczos_quadrature_iterations(n if beh.get("big") else n + 2)] if stochastic else []
+        with e2.configuration(dict(d["cfg"], precond_rank=d.get("prank", 0)), extra) as lines, UnitProbes(n) as up:
             calls = []
             calls.append(("op.logdet()", lambda: op.logdet(), logdet, tol_l, batch, True))
             calls.append(("torch.logdet(op)", lambda: torch.logdet(op), logdet, tol_l, batch, True))
@@ -123,7 +126,7 @@ def run(tier, seed):
     r, behs = e2.generate(tier, seed, "c05")
     behs = [b for b in behs if b["desc"]["cls"] != "Tri"]
     res.add_tlc("MC_E2", r)
-    b0 = copy.deepcopy(behs[0])
+    b0 = copy.deepcopy(next(b for b in behs if not b.get("big")))
     b0["dets"] = [x * 3 for x in b0["dets"]]
     if not _replay(b0)[0]:
         raise core.MachineryError("canary: corrupted determinant not rejected")
@@ -140,7 +143,7 @@ def run(tier, seed):
             sig = "%s|%s|%s|%s|%s" % (PROP, label.replace(" ", ""), d["cls"], d["logdet_path"], kind)
             res.violation(sig, "%s batch=%s dt=%s cfg=%s: %s: %s" % (beh["path"], d["b"], d["dt"], d["cfg"], label, msg), dict(behaviour=beh))
     res.notes["paths_predicted_x_observed"] = {"%s / %s" % k: v for k, v in sorted(paths.items())}
-    res.samples = [dict(desc=b["desc"], path=b["path"], dets=b["dets"]) for b in behs[:3]]
+    res.samples = [dict(desc=b["desc"], path=b["path"], dets=b.get("dets")) for b in behs[:3]]
     res.rule = ("PD class (21) x batch x {logdet, torch.logdet, inv_quad (reduce on/off, vector), inv_quad_logdet (flags)} x configurations; exact "
                 "integer determinants and rational quadratic forms from TLC; the stochastic path made exact by unit-vector probes")
     res.exhaustive = tier == "thorough"
